@@ -101,7 +101,7 @@ def run_check(prop, tier, seed, replay=None):
             print(f"OK property={prop} tier={tier} obligations={coq['discharged']}/{coq['obligations']} "
                   f"evaluations={ctx.evaluations} distinct={len(ctx.distinct)} wall={ev['wall_s']}s")
             if coq["discharged"] != coq["obligations"]:
-                print(f"VIOLATION property={prop} replay=/verif/evidence/{prop}.json no-failing-input-found")
+                print(f"VIOLATION property={prop} replay={core.VERIF}/evidence/{prop}.json no-failing-input-found")
                 rc = 1
     finally:
         ctx.cleanup()
